@@ -259,14 +259,17 @@ def be(n, k):
 
 
 def nested_groups_frame(depth, code, vendor=None, cmd=272, app=4):
-    """depth nested Grouped AVPs (innermost empty): used to measure the decoder's nesting limit"""
-    body = b""
-    for _ in range(depth):
-        h = 12 if vendor is not None else 8
-        ln = h + len(body)
-        body = be(code, 4) + bytes([0x80 if vendor is not None else 0]) + be(ln, 3) + (be(vendor, 4) if vendor is not None else b"") + body
-    total = 20 + len(body)
-    return bytes([1]) + be(total, 3) + bytes([0x80]) + be(cmd, 3) + be(app, 4) + be(1, 4) + be(2, 4) + body
+    """depth nested Grouped AVPs (innermost empty): used to measure the decoder's nesting limit.
+    Built outermost first in one pass (lengths of more than 24 bits are truncated, as the field is)."""
+    h = 12 if vendor is not None else 8
+    fl = bytes([0x80 if vendor is not None else 0])
+    c4 = be(code, 4)
+    v4 = be(vendor, 4) if vendor is not None else b""
+    out = bytearray()
+    for k in range(depth, 0, -1):          # the k-th group from the inside spans k headers
+        out += c4 + fl + be(h * k, 3) + v4
+    total = 20 + len(out)
+    return bytes([1]) + be(total, 3) + bytes([0x80]) + be(cmd, 3) + be(app, 4) + be(1, 4) + be(2, 4) + bytes(out)
 
 
 def walk_frame(frame, tyof, lo=20, hi=None, depth=0, out=None):
